@@ -137,21 +137,21 @@ pub fn step(u: &Universe, pre: &Obs, op: Op, inc: &Incoming) -> RefStep {
             let s = n.size(e);
             let present = l.iter().any(|x| x.id == k as u32);
             let too_large = s > limit;
-            let would_eject = !too_large && s > limit - cur;
+            let would_eject = !too_large && s > limit.saturating_sub(cur);
             r.class = match (too_large, s > limit.saturating_sub(cur), present) {
                 (true, _, true) => "try:too-large+would-eject+occupied",
                 (true, _, false) => "try:too-large+would-eject",
                 (false, true, true) => "try:would-eject+occupied",
                 (false, true, false) => "try:would-eject",
                 (false, false, true) => "try:occupied",
-                (false, false, false) if s == limit - cur => "try:ok-exact-fit",
+                (false, false, false) if s == limit.saturating_sub(cur) => "try:ok-exact-fit",
                 (false, false, false) => "try:ok",
             };
             if too_large {
                 r.ret = Ret::TryTooLarge { k: n.ko(), v: n.vo(), entry_size: s, max_size: limit };
             } else if would_eject {
                 r.ret =
-                    Ret::TryWouldEject { k: n.ko(), v: n.vo(), entry_size: s, free_memory: limit - cur };
+                    Ret::TryWouldEject { k: n.ko(), v: n.vo(), entry_size: s, free_memory: limit.saturating_sub(cur) };
             } else if present {
                 r.ret = Ret::TryOccupied { k: n.ko(), v: n.vo() };
             } else {
@@ -315,7 +315,34 @@ pub fn step(u: &Universe, pre: &Obs, op: Op, inc: &Incoming) -> RefStep {
                 Ret::ReserveOk
             };
         }
-        Op::ShrinkTo { .. } | Op::ShrinkToFit | Op::CloneSwap => {}
+        Op::ShrinkTo { .. } | Op::ShrinkToFit | Op::CloneSwap | Op::ArmFuel { .. } => {}
+        Op::Peek { k, .. } => {
+            r.ret = Ret::Val(l.iter().find(|x| x.id == k as u32).map(|x| x.vo()));
+        }
+        Op::PeekEntry { k, .. } => {
+            r.ret = Ret::Entry(l.iter().find(|x| x.id == k as u32).map(|x| (x.ko(), x.vo())));
+        }
+        Op::Contains { k, .. } => {
+            r.ret = Ret::Bool(l.iter().any(|x| x.id == k as u32));
+        }
+        Op::DebugFmt => {
+            r.ret = Ret::Text(format!(
+                "{{{}}}",
+                l.iter().map(|x| format!("k{}: v{}", x.id, x.vheap)).collect::<Vec<_>>().join(", ")
+            ));
+        }
+        Op::DrainForget { n, bits } => {
+            // a leaked drain may leak what it did not yield; what is specified
+            // is only that the yielded items come off the two ends in order
+            let mut out = vec![];
+            let mut rest: std::collections::VecDeque<RE> = l.drain(..).collect();
+            for i in 0..n {
+                let x = if (bits >> i) & 1 == 1 { rest.pop_front() } else { rest.pop_back() };
+                out.push(x.map(|x| (x.ko(), x.vo())));
+            }
+            r.ret = Ret::Drained(out);
+            r.explicit = to_ref(pre);
+        }
         Op::Drain { pat } => {
             let mut out = vec![];
             let mut rest: std::collections::VecDeque<RE> = l.drain(..).collect();
